@@ -7,7 +7,7 @@ from hypothesis import strategies as st
 
 from .. import hist, wire
 from ..engine import ok, require
-from ..simkit import ADDRS, Sim, cfg, desc_semantic, ep_desc, hdr, install_random, make_sd, sent_entries, timings
+from ..simkit import ADDRS, Sim, cfg, desc_semantic, ep_desc, hdr, install_random, late, make_sd, sent_entries, timings
 from ..vloop import RES
 
 PID = "C14"
@@ -16,7 +16,7 @@ SRV = ADDRS + [("2001:db8::3", 30490, 0, 7), ("10.0.0.2", 30491)]
 RULE = (
     "exhaustive: every script of bounded length over {subscribe / stop-subscribe of two eventgroups, start, stop} x timing prefixes relative to the refresh tick, finite TTL with refresh and infinite TTL without; random: cases = scripts of subscribe_eventgroup / stop_subscribe_eventgroup (no duplicate subscribes of a pair) / start / stop "
     "of the ServiceSubscriber for 6 eventgroups (IPv4 and IPv6 local endpoints, UDP and TCP, two of them with the same ids "
-    "but different local endpoints, two pairs sharing a local address and port with different transport protocols) and 5 servers (two of them differing from another one in the IPv6 scope id or the port only), with SUBSCRIBE_TTL 5 and refresh interval from {1, 3} or infinite TTL "
+    "but different local endpoints, two pairs sharing a local address and port with different transport protocols) and 5 servers (two of them differing from another one in the IPv6 scope id or the port only), with SUBSCRIBE_TTL 5 and refresh interval from {1, 3} or infinite TTL (passed to the constructor or assigned to the protocol object's Timings afterwards) "
     "without refresh; steps placed by delay, relative to the pending refresh tick (-4RES, -RES/4, +RES/4, +4RES, halfway) or "
     "inside one iteration (several calls, both orders). A model server per destination applies the transmitted Subscribe / "
     "StopSubscribe entries in order. non-trivial = stop-subscribe and subscribe of the same eventgroup in one iteration, or "
@@ -54,7 +54,8 @@ def _step(draw):
 
 
 def strategy(tier):
-    return st.builds(lambda ttl, steps: {"ttl": ttl, "steps": steps}, st.sampled_from([[5, 1], [5, 3], [5, 3], [INF, None]]), st.lists(_step(), min_size=1, max_size=14))
+    return st.builds(lambda ttl, steps, lt: {"ttl": ttl, "steps": steps, "late": lt}, st.sampled_from([[5, 1], [5, 3], [5, 3], [INF, None]]), st.lists(_step(), min_size=1, max_size=14),
+                     st.booleans())
 
 
 ALPHA = ["subA", "unsubA", "subB", "unsubB", "start", "stop", "T-q", "T+q", "+1.2"]
@@ -125,7 +126,9 @@ def run_case(case):
     with Sim() as sim:
         install_random([0.5])
         tm = timings(SUBSCRIBE_TTL=ttl, SUBSCRIBE_REFRESH_INTERVAL=refresh)
-        prot = make_sd(sim, tm)
+        tm0, apply_timings = late(tm, bool(case.get("late")))   # timings given to the constructor or assigned afterwards
+        prot = make_sd(sim, tm0)
+        apply_timings()
         sub = prot.subscriber
         requested = set()      # (eventgroup index, server index)
         running = [False]
